@@ -41,6 +41,7 @@ ASSERTS = [
     ("fassert_nonzero", "{f}.assert_nonzero()"), ("fassert_range", "{f}.assert_range({c}, {c})"),
     ("unpack_intmod", "PackIntMod({m}).unpack({i}.to_bits(({m} - 1).bit_length()), 0)"),
     ("pack_intmod", "PackIntMod({m}).pack({i})"),
+    ("unpack_list_mixed", "PackList([PackBool(), PackIntMod({m})]).unpack([1] + {i}.to_bits(({m} - 1).bit_length()), 0)"),
 ]
 # fresh boolean declarations: the wire is allocated inside the operation, left unknown, and must be exactly {0,1}
 DECLS = [("privvalbool", "r = PrivValBool(I[0])"), ("pubvalbool", "r = PubValBool(I[0])"),
@@ -120,6 +121,9 @@ def make_case(tid, tmpl, bl, rnd):
             cs.append(rnd.choice(["0", "1", "True", "False"]))
     if tid == "assert_range_cc" and isinstance(cs[0], int) and cs[0] > cs[1]:
         cs[0], cs[1] = cs[1], cs[0]
+    if tid == "unpack_list_mixed":
+        cs = [cs[0], cs[0]]
+        ins[0] = rnd.randint(0, (1 << (cs[0] - 1).bit_length()) - 1)
     if tid == "unpack_intmod":
         # same modulus in both slots; value below 2^bitlen so that the decomposition itself is valid
         cs = [cs[0], cs[0]]
@@ -127,6 +131,11 @@ def make_case(tid, tmpl, bl, rnd):
     if tid == "pack_intmod":
         ins[0] = rnd.randint(-1, (1 << (cs[0] - 1).bit_length()) + 1)
     c = opcases.Case(tid, tmpl, bl, res, ins, cs, None)
+    if tid == "unpack_list_mixed":
+        m = cs[0]
+        c.pre_src += "bits = [1] + x0.to_bits((%d - 1).bit_length())\n" % m
+        c.op_src = "PackList([PackBool(), PackIntMod(%d)]).unpack(bits, 0)" % m
+        c.expr = c.op_src
     if tid == "unpack_intmod":
         # decomposition belongs to the operands (fixed); the unpack is the operation
         m = cs[0]
